@@ -111,7 +111,12 @@ let () =
              | "res" -> res_case o
              | "lossy" -> lossy_case o
              | "heap" -> heap_case (h, o)
-             | "td" -> tdx_case farith float_of_bits_n bits_n_of_float flim o
+             | "td" ->
+               (* the merge limit is computed by the model itself (Model/Scale.v): kind in the u field, delta bits in mx *)
+               let lim = scale_lim farith float_of_n (fun x -> Obj.repr (asin (fl x))) (fun x -> Obj.repr (sin (fl x))) fln
+                   (fun x -> Obj.repr (exp (fl x))) (Obj.repr (Int64.float_of_bits 0x400921FB54442D18L))
+                   (fun x -> let f = fl x in f = infinity || f = neg_infinity) !u (float_of_bits_n !mx) in
+               tdx_case farith float_of_bits_n bits_n_of_float lim o
              | "hllc" -> hllc_case farith float_of_n fln ftrunc o
              | "hser" -> hser_case o
              | "mem" -> mem_case o
